@@ -4,6 +4,7 @@ Engine D: every sample in A^n (A a 4- or 5-letter value alphabet, n = 2..7/8) x 
 brute-force oracle over all pairs of sample values; 2-D inputs, permutations, dtypes,
 containers, affine maps, input immutability.
 """
+import bisect
 import itertools
 
 import numpy as np
@@ -22,15 +23,16 @@ ALPHABETS = [
 
 
 def brute(sample, f):
-    """All pairs (a<=b) of sample values: (width, count)."""
-    s = np.sort(np.asarray(sample, dtype=float))
+    """All pairs (a<=b) of sample values: (width, count of sample points in [a,b])."""
+    s = sorted(float(v) for v in sample)
     n = len(s)
     out = []
     for i in range(n):
+        a = s[i]
+        first = bisect.bisect_left(s, a)
         for j in range(i, n):
-            a, b = s[i], s[j]
-            cnt = int(((s >= a) & (s <= b)).sum())
-            out.append((b - a, cnt))
+            b = s[j]
+            out.append((b - a, bisect.bisect_right(s, b) - first))
     return out
 
 
@@ -180,7 +182,275 @@ def ev_columns(case):
     return {"fails": fails[:20], "n": nev, "tags": tags}
 
 
-EVALUATORS = {"block": ev_block, "variants": ev_variants, "columns": ev_columns}
+# ---------------------------------------------------------------------------------------------------------------
+# call histories over every container form: the result depends on the CURRENT contents of what is passed, only
+# ---------------------------------------------------------------------------------------------------------------
+INT_FORMS = ("i1", "i2", "i4", "i8", "u1", "u2", "u4", "u8")
+FLOAT_FORMS = ("f8", "f4", "f2", "longdouble")
+FORMS_1D = (
+    ["list", "tuple", "list-npscalars"]
+    + list(FLOAT_FORMS)
+    + ["f8-strided", "f8-negstride", "f8-column-of-2d", "f8-readonly-view", "f4-strided"]
+    + list(INT_FORMS)
+    + ["i8-strided", "intlist"]
+)
+FORMS_2D = (
+    ["nested-lists", "nested-tuples", "list-of-tuples", "tuple-of-lists", "list-of-arrays", "tuple-of-arrays"]
+    + ["f8-C", "f8-F", "f8-transposed-view", "f8-strided", "f8-negstride", "f8-readonly-view", "f4-C", "f4-F", "f2-C", "longdouble-C"]
+    + [d + "-C" for d in INT_FORMS]
+    + ["i8-F", "i4-strided", "nested-intlists"]
+)
+HISTORY_OPS = ("none", "rescale", "shift", "refill", "reverse", "sort", "other-call")
+HISTORY_FRACTIONS = [0.5, 0.2, 0.68, 1.0 / 3.0, 0.95]
+_DT = {"f8": np.float64, "f4": np.float32, "f2": np.float16, "longdouble": np.longdouble, "i1": np.int8, "i2": np.int16, "i4": np.int32,
+       "i8": np.int64, "u1": np.uint8, "u2": np.uint16, "u4": np.uint32, "u8": np.uint64}
+
+
+def form_is_int(form):
+    return form.split("-")[0] in INT_FORMS or "int" in form
+
+
+class Held:
+    """One container form holding a 1-D (n,) or 2-D (n,k) sample: `obj` is what is passed to sample_hdi, `write(values)`
+    replaces the contents IN PLACE (same object identity), `read()` gives the current contents as a float array."""
+
+    def __init__(self, form, values):
+        v = np.array(values)
+        self.form = form
+        self.dim = v.ndim
+        head = form.split("-")[0]
+        self.mutable = True
+        self.arrays = None  # the ndarray(s) through which in-place edits are made
+        if head in _DT:
+            dt = _DT[head]
+            lay = form[len(head) + 1 :]
+            if lay in ("", "C"):
+                a = np.array(v, dtype=dt, order="C")
+                tgt = a
+            elif lay == "F":
+                a = np.array(v, dtype=dt, order="F")
+                tgt = a
+            elif lay == "strided":
+                big = np.zeros(tuple(2 * s + 1 for s in v.shape), dtype=dt)
+                a = big[tuple(slice(1, None, 2) for _ in v.shape)]
+                a[...] = v
+                tgt = a
+            elif lay == "negstride":
+                big = np.array(v[::-1], dtype=dt)
+                a = big[::-1]
+                tgt = a
+            elif lay == "transposed-view":
+                big = np.array(v.T, dtype=dt, order="C")
+                a = big.T
+                tgt = a
+            elif lay == "column-of-2d":
+                big = np.zeros((v.shape[0], 3), dtype=dt)
+                a = big[:, 1]
+                a[...] = v
+                tgt = a
+            elif lay == "readonly-view":
+                tgt = np.array(v, dtype=dt)
+                a = tgt.view()
+                a.flags.writeable = False
+            else:
+                raise ValueError(form)
+            assert a.shape == v.shape
+            self.obj, self.arrays = a, tgt
+        elif form in ("list", "intlist"):
+            self.obj = [int(x) if form == "intlist" else float(x) for x in v]
+        elif form == "tuple":
+            self.obj = tuple(float(x) for x in v)
+            self.mutable = False
+        elif form == "list-npscalars":
+            self.obj = [np.float64(x) for x in v]
+        elif form in ("nested-lists", "nested-intlists"):
+            self.obj = [[int(x) if "int" in form else float(x) for x in row] for row in v]
+        elif form == "nested-tuples":
+            self.obj = tuple(tuple(float(x) for x in row) for row in v)
+            self.mutable = False
+        elif form == "list-of-tuples":
+            self.obj = [tuple(float(x) for x in row) for row in v]
+        elif form == "tuple-of-lists":
+            self.obj = tuple([float(x) for x in row] for row in v)
+        elif form in ("list-of-arrays", "tuple-of-arrays"):
+            rows = [np.array(row, dtype=float) for row in v]
+            self.obj = rows if form.startswith("list") else tuple(rows)
+        else:
+            raise ValueError(form)
+
+    def read(self):
+        if self.arrays is not None:
+            return np.array(self.obj, dtype=float)
+        return np.array([list(r) for r in self.obj] if self.dim == 2 else list(self.obj), dtype=float)
+
+    def snapshot(self):
+        return self.read().tolist()
+
+    def write(self, new):
+        """contents <- new, keeping the identity of the outer object (and of inner mutable objects where they exist)"""
+        if self.arrays is not None:
+            self.arrays[...] = new
+            return
+        conv = (lambda x: int(x)) if "int" in self.form else (lambda x: float(x))
+        if self.dim == 1:
+            for i, x in enumerate(new):
+                self.obj[i] = np.float64(x) if self.form == "list-npscalars" else conv(x)
+            return
+        for i, row in enumerate(new):
+            r = self.obj[i]
+            if isinstance(r, np.ndarray):
+                r[...] = row
+            elif isinstance(r, list):
+                for j, x in enumerate(row):
+                    r[j] = conv(x)
+            else:  # immutable row inside a mutable list
+                self.obj[i] = tuple(conv(x) for x in row)
+
+    def apply(self, op, a, b, refill):
+        """one in-place edit; arrays are edited with the numpy in-place operators a caller would use"""
+        A = self.arrays
+        if op == "rescale":
+            if A is not None:
+                A *= A.dtype.type(a)
+            else:
+                self.write(self.read() * a)
+        elif op == "shift":
+            if A is not None:
+                A += A.dtype.type(b)
+            else:
+                self.write(self.read() + b)
+        elif op == "refill":
+            self.write(np.array(refill))
+        elif op == "reverse":
+            if A is not None:
+                A[...] = A[::-1].copy()
+            elif isinstance(self.obj, list):
+                self.obj.reverse()  # 2-D: the row objects change places
+            else:
+                self.write(self.read()[::-1])
+        elif op == "sort":
+            if A is not None:
+                A.sort(axis=0)
+            elif self.dim == 1:
+                self.obj.sort()
+            else:
+                self.write(np.sort(self.read(), axis=0))
+        else:
+            raise ValueError(op)
+
+
+def width_tol(form, cur):
+    """widths are formed in the sample's own floating type: allow that type's rounding of a width (0 for float64 / integers)"""
+    head = form.split("-")[0]
+    if head in ("f4", "f2", "longdouble"):
+        dt = np.float64 if head == "longdouble" else _DT[head]
+        return 4 * float(np.spacing(dt(np.abs(cur).max() + 1)))
+    return 0.0
+
+
+def check_result(held, f, r, tagbase, what):
+    """shape + the statement's three clauses per column, on the current contents of the held container"""
+    cur = held.read()
+    fails = []
+    r = np.asarray(r, dtype=float)
+    k = 1 if cur.ndim == 1 else cur.shape[1]
+    want = (2,) if k == 1 else (2, k)
+    if r.shape != want:
+        return [fail(f"{tagbase}/shape", f"{what}: result shape {r.shape}, expected {want}", contents=cur.tolist(), fraction=f)]
+    cols = cur.reshape(cur.shape[0], k)
+    R = r.reshape(2, k)
+    tol = width_tol(held.form, cur)
+    for j in range(k):
+        fs = check_interval(cols[:, j].tolist(), f, float(R[0, j]), float(R[1, j]), tagbase, tol=tol)
+        for x in fs:
+            x["what"] = f"{what} column {j}: " + x["what"]
+            x["contents"] = cur.tolist()
+        fails += fs
+    return fails
+
+
+def ev_history(case):
+    """Same object passed repeatedly with in-place edits in between, for one container form.  After every call the result
+    must be the interval of the contents the object holds AT THAT CALL (brute-force oracle) and the call must not have
+    changed them."""
+    from inference.pdf.hdi import sample_hdi
+
+    form, A, depth = case["form"], case["alphabet"], case["depth"]
+    a, b = case["scale"], case["shift"]
+    fails, tags, nev = [], set(), 0
+    kind = "ndarray" if form.split("-")[0] in _DT else "sequence"
+    key = f"history/{case['dim']}d-{kind}"  # the form itself is named in `what`
+    hists = [()]
+    for d in range(1, depth + 1):
+        hists += list(itertools.product(HISTORY_OPS, repeat=d))
+    for si, idx in enumerate(case["samples"]):
+        base = np.array(A)[np.array(idx)]
+        # the refill contents: another sample of the same shape over the same alphabet (letters advanced position-wise)
+        ref = np.array(A)[(np.array(idx) + 1 + np.arange(np.array(idx).size).reshape(np.array(idx).shape)) % len(A)]
+        probe = Held(form, base.tolist())
+        for hi, hist in enumerate(hists):
+            if not probe.mutable and any(op not in ("none", "other-call") for op in hist):
+                continue
+            h = Held(form, base.tolist())
+            trail = []
+            for step in range(len(hist) + 1):
+                if step > 0:
+                    op = hist[step - 1]
+                    if op == "other-call":
+                        o = Held(form, ref.tolist())
+                        fo = HISTORY_FRACTIONS[(hi + step + 2) % len(HISTORY_FRACTIONS)]
+                        with lib(f"sample_hdi-history-{case['dim']}d-{kind}"):
+                            ro = sample_hdi(o.obj, fo)
+                        nev += 1
+                        fails += check_result(o, fo, ro, key, f"form {form}, call on a second object after {trail}")
+                    elif op != "none":
+                        h.apply(op, a, b, ref.tolist())
+                    trail.append(op)
+                f = HISTORY_FRACTIONS[(hi + step + si) % len(HISTORY_FRACTIONS)]
+                before = h.snapshot()
+                with lib(f"sample_hdi-history-{case['dim']}d-{kind}"):
+                    r = sample_hdi(h.obj, f)
+                nev += 1
+                if h.snapshot() != before:
+                    fails.append(fail(f"{key}/input-modified", f"form {form}: contents {before} changed by the call (history {trail})", history=trail, fraction=f))
+                fails += check_result(h, f, r, key, f"form {form}, start {base.tolist()}, history {trail}, f={f}")
+                if len(fails) >= 20:
+                    return {"fails": fails[:20], "n": nev, "tags": tags}
+            tags.add(f"history {case['dim']}d form={form} calls={len(hist) + 1} last={hist[-1] if hist else 'single-call'}")
+    return {"fails": fails[:20], "n": nev, "tags": tags}
+
+
+def ev_dtype_range(case):
+    """integer samples using the whole range of their type (the width of an interval need not fit the type)"""
+    from inference.pdf.hdi import sample_hdi
+
+    dt = _DT[case["dtype"]]
+    info = np.iinfo(dt)
+    lo, hi = int(info.min), int(info.max)
+    letters = [lo, lo // 2 if lo else hi // 4, 0 if lo else hi // 2, hi // 2 + 1 if lo else hi - 1, hi]
+    fails, tags, nev = [], set(), 0
+    for n in case["ns"]:
+        for idx in itertools.product(range(len(letters)), repeat=n):
+            vals = [letters[i] for i in idx]
+            for two_d in (False, True):
+                arr = np.array(vals, dtype=dt)
+                if two_d:
+                    arr = np.stack([arr, arr[::-1]], axis=1)
+                for f in case["fractions"]:
+                    with lib(f"sample_hdi-{case['dtype']}-full-range"):
+                        r = np.asarray(sample_hdi(arr, f), dtype=float)
+                    nev += 1
+                    cols = arr.reshape(n, -1)
+                    R = r.reshape(2, -1)
+                    for j in range(cols.shape[1]):
+                        fails += check_interval([float(x) for x in cols[:, j]], f, float(R[0, j]), float(R[1, j]), f"dtype-range/{case['dtype']}")
+                    if len(fails) >= 20:
+                        return {"fails": fails[:20], "n": nev, "tags": tags}
+            tags.add(f"dtype-range {case['dtype']} n={n} span_exceeds_type={max(vals) - min(vals) > hi}")
+    return {"fails": fails[:20], "n": nev, "tags": tags}
+
+
+EVALUATORS = {"block": ev_block, "variants": ev_variants, "columns": ev_columns, "history": ev_history, "dtype_range": ev_dtype_range}
 
 
 def run(ck):
@@ -219,10 +489,52 @@ def run(ck):
             cols = allc[(seed % step) :: step][: (14 if quick else 40)]
             ccases.append({"columns": cols, "fractions": [0.2, 0.5, 0.68, 0.95]})
     ck.run_cases("columns", ccases, chunk=1)
+    # call histories: every container form x start samples x every sequence of <= depth in-place edits (7 kinds)
+    depth = 2 if quick else 3
+    hcases = []
+    for dim, forms in ((1, FORMS_1D), (2, FORMS_2D)):
+        for form in forms:
+            isint = form_is_int(form)
+            core = form in ("list", "tuple", "f8", "nested-lists", "nested-tuples", "list-of-arrays", "f8-C", "f8-F")
+            fi = forms.index(form)
+            for ai, A in enumerate([ALPHABETS[0]] if isint else (alphabets if core else [alphabets[(seed + fi) % len(alphabets)]])):
+                head = form.split("-")[0]
+                if isint:
+                    a, b = 2, 3
+                elif head == "f8" or head not in _DT:
+                    a, b = (2.0, 0.5, 1024.0)[(seed + ai) % 3], (-3.0, 7.25, 1e6)[(seed + ai) % 3]
+                else:
+                    a, b = (2.0, 0.5)[(seed + ai) % 2], (-3.0, 7.25)[(seed + ai) % 2]
+                if dim == 1:
+                    shapes = [((2,), 1), ((3,), 9 if quick else 3), ((5,), 211 if quick else 61), ((6,), 1361 if quick else 409)]
+                else:
+                    shapes = [((2, 2), 61 if quick else 19), ((3, 2), 1021 if quick else 409), ((4, 3), 5000011 if quick else 2000003)]
+                for shape, step in shapes:
+                    size = int(np.prod(shape))
+                    total = len(A) ** size
+                    samples = []
+                    for code in range((seed + ai) % step, total, step):
+                        digits = [(code // len(A) ** p) % len(A) for p in range(size)]
+                        samples.append(np.array(digits).reshape(shape).tolist())
+                    for g in range(0, len(samples), 8):
+                        hcases.append({"dim": dim, "form": form, "alphabet": A, "samples": samples[g : g + 8], "depth": depth, "scale": a, "shift": b})
+    ck.run_cases("history", hcases, chunk=1)
+    # integer samples that use the whole range of their type
+    rcases = [{"dtype": d, "ns": [2, 3] if quick else [2, 3, 4], "fractions": [0.2, 0.5, 0.68]} for d in ("i1", "u1", "i2", "u2", "i4", "u4")]
+    ck.run_cases("dtype_range", rcases, chunk=1)
     ck.rule = (
         "every sample in A^n for the listed value alphabets (all of A^n, enumerated), n=2..%d, x 9 fractions, brute-force oracle over all "
         "pairs of sample values; plus all permutations (n<=5), containers/dtypes, 6 affine maps per multiset, and 2-D inputs from all tuples "
-        "of columns. A case is non-trivial/distinct by (n, L=int(f*n), ties present, zero-width result) or by variant kind." % nmax
+        "of columns. Call histories: for each of %d 1-D and %d 2-D container forms (lists/tuples/nested and mixed sequences, lists of arrays, "
+        "arrays of float16/32/64/longdouble and all 8 integer types, C/Fortran order, strided, negative-stride, transposed and read-only views) the "
+        "SAME object is passed again after every sequence of <= %d steps from {no change, rescale, shift, refill, reverse, sort (all in place), a call "
+        "on a second object}, start samples an arithmetic progression through A^n (n=2,3,5,6; 2x2, 3x2, 4x3); after every call the statement's clauses "
+        "are checked by brute force against the contents held at that call. Integer samples over 5 letters spanning the full range of int8/16/32 and "
+        "uint8/16/32 (all of letters^n, n<=%d, 1-D and 2-D). A case is non-trivial/distinct by (n, L=int(f*n), ties present, zero-width result), by "
+        "variant kind, or by (container form, number of calls, last edit)." % (nmax, len(FORMS_1D), len(FORMS_2D), depth, 3 if quick else 4)
     )
     ck.assume("value alphabets are finite (4-5 letters); longer samples only through two quantile samples in the variants evaluator")
+    ck.assume("call histories: samples of 2..6 points (up to 4x3 in 2-D); immutable containers (tuples of numbers) only see repeated calls; bool and object arrays are not "
+              "treated as accepted dtypes; 64-bit integer samples are not taken to the ends of their range (not representable in the float result)")
     ck.extra["alphabets"] = alphabets
+    ck.extra["container_forms"] = {"1d": list(FORMS_1D), "2d": list(FORMS_2D), "history_ops": list(HISTORY_OPS)}
